@@ -213,6 +213,9 @@ pub fn wrap_gzip(out: &mut Vec<u8>, o: &GzipOpts, stream: &[u8], plain: &[u8], m
 }
 
 pub struct ZipOpts {
+    /// bytes between the end of the deflate stream and the declared end of the member
+    /// (the header's compressed size covers them)
+    pub pad: usize,
     pub name_len: usize,
     pub extra_len: usize,
     pub data_descriptor: bool,
@@ -222,6 +225,7 @@ pub struct ZipOpts {
 
 pub fn gen_zip_opts(dna: &mut Dna) -> ZipOpts {
     ZipOpts {
+        pad: if dna.chance(8) { dna.range(1, 9) } else { 0 },
         name_len: match dna.below(3) {
             0 => 0,
             1 => dna.range(1, 20),
@@ -253,7 +257,7 @@ pub fn wrap_zip(out: &mut Vec<u8>, o: &ZipOpts, stream: &[u8], plain: &[u8], m: 
         out.extend_from_slice(&[0; 12]);
     } else {
         out.extend_from_slice(&crc.to_le_bytes());
-        out.extend_from_slice(&(stream.len() as u32).to_le_bytes());
+        out.extend_from_slice(&((stream.len() + o.pad) as u32).to_le_bytes());
         out.extend_from_slice(&(plain.len() as u32).to_le_bytes());
     }
     out.extend_from_slice(&(name.len() as u16).to_le_bytes());
@@ -262,6 +266,9 @@ pub fn wrap_zip(out: &mut Vec<u8>, o: &ZipOpts, stream: &[u8], plain: &[u8], m: 
     out.extend_from_slice(&extra);
     let start = out.len();
     out.extend_from_slice(stream);
+    for _ in 0..o.pad {
+        out.push(safe_junk_byte(m));
+    }
     if o.data_descriptor {
         if m.chance(50) {
             out.extend_from_slice(&0x08074b50u32.to_le_bytes());
